@@ -101,6 +101,18 @@ def gen_instruction(rng, addr_pool=None, valid_for_as=False, labels=None):
         return (rng.choice(["shl", "shr", "sar"]), ["$" + rng.choice(["0x1", "0x3", "0x4"]), r64()])
     if k == 20:
         return ("movzbl", [_mem(rng), r32()])
+    if rng.random() < 0.25:
+        lab = (labels[0] if labels else "L1")
+        forms = [("mov", ["%fs:0x28", "%rax"]), ("lock incl", None), ("rep stos", None), ("vaddps", ["%zmm1", "%zmm2", "%zmm3{%k1}{z}"]),
+                 ("add", ["$-0x10", "%rsp"]), ("cmpxchg", ["%rcx", "(%rdx)"]), ("movsbl", ["%al", "%eax"]), ("xchg", ["%ax", "%ax"])]
+        mn, ops = rng.choice(forms)
+        if mn == "lock incl":
+            return ("lock incl", ["(%rax)"]) if valid_for_as else ("lock", ["incl", "(%rax)"])
+        if mn == "rep stos":
+            return ("rep stos", ["%al", "%es:(%rdi)"]) if valid_for_as else ("rep", ["stos", "%al,%es:(%rdi)"])
+        if valid_for_as and rng.random() < 0.3:
+            return (rng.choice(["lea", "mov"]), [f"{lab}(%rip)", "%rax"])
+        return (mn, ops)
     if not valid_for_as and rng.random() < 0.15:
         # a direct-looking branch whose operand is not a hex address (symbolic / intel-style text)
         return (rng.choice(["call", "jmp", "je"]), [rng.choice(["QWORD", "rax", "some_label", "0xzz"])])
@@ -182,7 +194,7 @@ _AS_CACHE: dict = {}
 def gen_asm_source(rng, sections=None, random_bytes_p=0.35):
     """AT&T source for GNU as: several sections, code from the vocabulary or raw bytes."""
     pool = [".text", ".init", ".plt", ".plt.got", ".mycode", ".fini", ".data", ".rodata", "mycode", "__ex_table", ".text.cold", "my.sec-1", "text",
-            "a b", "my$sec", "sec;x", "-dash", ".te*xt"]
+            "a b", "my$sec", "sec;x", "-dash", ".te*xt", "se:c x", "-d", "intel"]
     if sections is None:
         k = rng.randrange(1, 5)
         sections = [".text"] if rng.random() < 0.5 else []
@@ -209,7 +221,7 @@ def gen_asm_source(rng, sections=None, random_bytes_p=0.35):
         n = rng.randrange(2, 14)
         for _ in range(rng.randrange(1, 3)):
             lab += 1
-            labels.append(rng.choice(["L{n}", "fn{n}.cold", "_ZN3foo3bar{n}Ev", "a$b{n}", ".Lanchor{n}", "x.y.{n}", "caf\u00e9{n}", "\u0444\u0443\u043d\u043a{n}"]).format(n=lab)
+            labels.append(rng.choice(["L{n}", "fn{n}.cold", "_ZN3foo3bar{n}Ev", "a$b{n}", ".Lanchor{n}", "x.y.{n}", "caf\u00e9{n}", "\u0444\u0443\u043d\u043a{n}", '"a>:b{n}"', '"sym with space{n}"']).format(n=lab)
                           if rng.random() < 0.4 else f"L{lab}")
         raw = is_data or rng.random() < random_bytes_p
         if raw:
@@ -228,6 +240,8 @@ def gen_asm_source(rng, sections=None, random_bytes_p=0.35):
                 if i < n:
                     mn, ops = gen_instruction(rng, valid_for_as=True, labels=labels)
                     body.append("\t" + mn + ("\t" + ",".join(ops) if ops else ""))
+                    if rng.random() < 0.04:
+                        body.append(f"\t.zero {rng.choice([8, 16, 40, 64])}")  # objdump folds such a run into a '...' line
         out += body
         meta.append({"name": sec, "raw": raw, "data": is_data})
     return "\n".join(out) + "\n", meta
@@ -390,7 +404,7 @@ def objdump_of(elf: bytes, sections=None, style="att"):
 
 
 RULE_NAMES = ["rule.yaml", "rule.yaml", "rules/my rule.yaml", "r.yml", "r\u00e8gle.yaml", "deep/er/dir/rule.yaml", "rule",
-              "h#sh & amp.yaml", "100%.yaml", "q'uote.yaml", "br[ack]et{s}.yaml", "~/rule.yaml", "$HOME/rule.yaml", "@rule.yaml", "@args/rule.yaml"]
+              "h#sh & amp.yaml", "100%.yaml", "q'uote.yaml", "br[ack]et{s}.yaml", "ru=le,1.yaml", "~/rule.yaml", "$HOME/rule.yaml", "@rule.yaml", "@args/rule.yaml"]
 ASM_NAMES = ["in.s", "in.s", "dir with space/in put.s", "sub/listing.s", "dump.txt", "in", "50%_packed.s", "star*.s", "we ird$name;x.s",
              "listing.o", "UPPER.ASM", "~/in.s", "$HOME/in.s", "${PATH}.s", "@in.s"]
 BIN_NAMES = ["in.bin", "in.o", "bin dir/a b.o", "prog", "sub/lib.so.1", "caf\u00e9.o", "100%.o", "obj.s", "obj.S", "code.asm", "a'b\"c.o", "x[1]?.o",
